@@ -210,3 +210,6 @@ func ClearDir(dir string) {
 		os.RemoveAll(filepath.Join(dir, en.Name()))
 	}
 }
+
+// ClearFile removes one file (helper for recovery steps).
+func ClearFile(path string) { os.Remove(path) }
